@@ -249,8 +249,76 @@ def handleGffFile (hdr : Bool) (fs : List Gff.Feature) (obs : String) : Verdict 
       (if obs.startsWith "werr:badfeature" then ok ["gff-file", "refused"] else diff "werr:badfeature" ["gff-file"])
     else fail "write-failed" ["gff-file"]
 
+/-! ### one record through a failing `io.Writer` (ops `bedx`, `gffx`)
+"reported byte counts equal bytes emitted" — also by a `Write` that fails part-way.  The harness
+writes the record, for every `k` up to the length of the fault-free text, to a writer that accepts
+exactly `k` bytes and then fails. -/
+
+/-- the failing sink seen from a writer that adds up what its underlying writes return and stops at
+    the first error: the record's text (`len` bytes, starting at offset `s` — the header) is emitted
+    completely when it fits, otherwise its first `k - s` bytes are, reported with an error -/
+def faultOne (k s len : Nat) : String :=
+  if s + len ≤ k then s!"{len}/{len}/0/1" else s!"{k - s}/{k - s}/1/1"
+
+def faultModel (pre text : Bytes) : String :=
+  let all := pre ++ text
+  " ".intercalate (["x", toString all.length, hx all]
+    ++ (List.range (all.length + 1)).map fun k => faultOne k pre.length text.length)
+
+/-- demanded at one failure point `<n>/<emitted>/<e>/<p>`: the count returned equals the bytes that
+    `Write` emitted, and everything emitted is the beginning of the fault-free text -/
+def faultDemand (k : Nat) (tok : String) : Option String :=
+  match tok.splitOn "/" with
+  | [n, d, _, p] =>
+    if n ≠ d then some s!"writer failing after {k} bytes: reported-count {n} != bytes-emitted {d}"
+    else if p ≠ "1" then some s!"writer failing after {k} bytes: the bytes emitted are not a prefix of the fault-free text"
+    else none
+  | _ => some "unparsable-observation"
+
+def faultDemands : Nat → List String → Option String
+  | _, [] => none
+  | k, t :: ts => match faultDemand k t with
+    | some why => some why
+    | none => faultDemands (k + 1) ts
+
+def faultVerdict (model obs : String) (tags : List String) : Verdict :=
+  match tokens obs with
+  | "x" :: _ :: _ :: toks =>
+    match faultDemands 0 toks with
+    | some why => fail why tags
+    | none => if model == obs then ok tags else diff (model.take 600).toString tags
+  | _ => if model == obs then ok tags else diff (model.take 600).toString tags
+
 def handleTokens (inp : List String) (obs : String) : Verdict :=
   match inp with
+  | "bedx" :: n :: w :: cols =>
+    match parseNat n, parseNat w, parseBedIn cols with
+    | some n, some w, some full =>
+      let b := Bed.firstCols n full
+      let tags := ["bed", "failing-writer", s!"bed{n}", s!"write{w}"] ++ (if w ≤ n then ["nt"] else [])
+      match Bed.write w b with
+      | .error _ => let m := "werr:type 0 -"; if m == obs then ok tags else diff m tags
+      | .ok (text, _) => faultVerdict (faultModel [] text) obs tags
+    | _, _, _ => bad "bedx"
+  | "gffx" :: hdr :: cols =>
+    match parseBool hdr, parseGffIn cols with
+    | some hdr, some f =>
+      let tags := ["gff", "failing-writer", if hdr then "header" else "no-header", "nt"]
+        ++ (match f.score with | none => ["score-nil"] | some _ => ["score-float"])
+        ++ (match f.attrs with | none => ["attrs-nil"] | some [] => ["attrs-empty"] | some _ => ["attrs"])
+      if f.start ≥ f.stop then (if obs.startsWith "werr:badfeature" then ok ["gff", "refused"] else diff "werr:badfeature" ["gff"])
+      else
+        -- the fault-free text is taken from the observation (its float text is the oracle's): the
+        -- model of the failing sink needs only the lengths
+        match tokens obs with
+        | "x" :: _ :: t :: _ =>
+          match bytesOfHex t with
+          | some all =>
+            let pre := if hdr then Gff.headerText else []
+            faultVerdict (faultModel pre (all.drop pre.length)) obs tags
+          | none => bad "gffx"
+        | _ => fail "write-failed" tags
+    | _, _ => bad "gffx"
   | "bedf" :: n :: w :: r :: cols =>
     match parseNat n, parseNat w, parseNat r, (recordTokens 12 cols).bind (·.mapM parseBedIn) with
     | some n, some w, some r, some fulls => handleBedFile n w r fulls obs
@@ -397,7 +465,7 @@ def handleTokens (inp : List String) (obs : String) : Verdict :=
     | _, _ => bad "fl"
   | _ => bad "unknown-op"
 
-def ops : List String := ["bed", "gff", "reg", "iseq", "fl", "bedf", "gfff"]
+def ops : List String := ["bed", "gff", "reg", "iseq", "fl", "bedf", "gfff", "bedx", "gffx"]
 
 def handle (line : String) : String :=
   let (inp, obs) := splitCase line
